@@ -439,9 +439,12 @@ func ruleP7(c *Ctx) {
 			}
 			if es, ok := st.(*ast.ExprStmt); ok {
 				if call, ok := es.X.(*ast.CallExpr); ok {
-					if fn, ok := calleeOf(info, call).(*types.Func); ok && fn.Name() == "emitCommand" && len(call.Args) == 3 {
-						if s, ok := constStr(info, call.Args[1]); ok && s == name {
-							emit = true
+					if fn, ok := calleeOf(info, call).(*types.Func); ok && fn.Name() == "emitCommand" {
+						// emitCommand(env, "DB", ocodes) or env.emitCommand("DB", ocodes)
+						for _, a := range call.Args {
+							if s, ok := constStr(info, a); ok && s == name {
+								emit = true
+							}
 						}
 					}
 				}
